@@ -43,7 +43,8 @@ try:
         exe = "/tmp/seeddemo_%s_%s" % (name, tag)
         # link exactly the library sources the demo's own compile line mentions (demos that supply their own
         # nfl::randombytes / nfl::fastrandombytes leave the corresponding file out)
-        hl = head.replace("\\\n", " ")
+        hl = re.sub(r"\\\n\s*(//|#)?", " ", head)
+        hl = " ".join(re.findall(r"g\+\+[^\n]*", hl)) if "g++" in hl else hl       # only the compile line(s), not prose
         mentions = lambda f: (f in hl)
         parts = [demo]
         if mentions("params.cpp") or "g++" not in hl: parts.append("%s/lib/params/params.cpp" % wt)
